@@ -47,6 +47,20 @@ def expNums (sky : ℚ → ℚ) (p : ℕ) (pix : Bool) : Shape → List ℚ → 
     [rsz sky p pix iw, rsz sky p pix ow, rsz sky p pix ih, rsz sky p pix oh, sky a]
   | _, _ => []
 
+/-- the property's tolerance on the non-positional numbers: `h` = half a unit; the full axes of
+ellipses (stored as semi-axes) get `2·h`. -/
+def NumsWithin (h : ℚ) : Shape → List ℚ → List ℚ → Prop
+  | .circle, [r], [r'] => |r' - r| ≤ h
+  | .ellipse, [w, ht, a], [w', ht', a'] => |w' - w| ≤ 2 * h ∧ |ht' - ht| ≤ 2 * h ∧ |a' - a| ≤ h
+  | .rectangle, [w, ht, a], [w', ht', a'] => |w' - w| ≤ h ∧ |ht' - ht| ≤ h ∧ |a' - a| ≤ h
+  | .circleAnnulus, [ri, ro], [ri', ro'] => |ri' - ri| ≤ h ∧ |ro' - ro| ≤ h
+  | .ellipseAnnulus, [iw, ow, ih, oh, a], [iw', ow', ih', oh', a'] =>
+    |iw' - iw| ≤ 2 * h ∧ |ow' - ow| ≤ 2 * h ∧ |ih' - ih| ≤ 2 * h ∧ |oh' - oh| ≤ 2 * h ∧ |a' - a| ≤ h
+  | .rectangleAnnulus, [iw, ow, ih, oh, a], [iw', ow', ih', oh', a'] =>
+    |iw' - iw| ≤ h ∧ |ow' - ow| ≤ h ∧ |ih' - ih| ≤ h ∧ |oh' - oh| ≤ h ∧ |a' - a| ≤ h
+  | _, [], [] => True
+  | _, _, _ => False
+
 /-- F19: the *printed* sizes are what the reader validates — strictly positive, inner strictly
 smaller than outer.  A size (or an annulus gap) below half a printed unit fails this. -/
 def WellRounded (sky : ℚ → ℚ) (p : ℕ) (r : Region) : Prop :=
@@ -88,5 +102,92 @@ def WF (r : Region) : Prop :=
   AL.get r.vis .tag = none ∧ AL.get r.vis .text = none ∧ AL.get r.vis .include = none ∧
   (AL.keys r.mta).Nodup
 instance (r : Region) : Decidable (WF r) := by unfold WF; infer_instance
+
+/-! ### the reader's image (for the fixed-point clause)
+
+`ReaderNormal cfg p r`: `r` is a region as the reader produces it from a text written at precision
+`p` — numbers are `p`-decimals (longitudes in `[0, 360)`; ellipse axes twice a `p`-decimal), the
+class invariants on sizes hold, the metadata holds only DS9 meta keys with the reader's value types
+(`include` present; binary keys `0`/`1`; a non-empty list of tags; a string label), and — the scope
+of the *theorem* — the visual metadata is the reader's default (`default_style = 'ds9'` only).
+Visual keys (colour, width, font, dash, point, fill, text angle) at the fixed point are compared by
+the correspondence run, not proved. -/
+
+def plainVisual : Dict := [(Key.default_style, PyVal.str "ds9".toList)]
+
+def CoordNormal (p : ℕ) (pix : Bool) (c : ℚ × ℚ) : Prop :=
+  IsDec p c.1 ∧ IsDec p c.2 ∧ (pix = false → 0 ≤ c.1 ∧ c.1 < 360)
+instance (p : ℕ) (pix : Bool) (c : ℚ × ℚ) : Decidable (CoordNormal p pix c) := by
+  unfold CoordNormal; infer_instance
+
+def NumsNormal (p : ℕ) : Shape → List ℚ → Prop
+  | .circle, [r] => IsDec p r
+  | .ellipse, [w, h, a] => IsDec p (w / 2) ∧ IsDec p (h / 2) ∧ IsDec p a
+  | .rectangle, [w, h, a] => IsDec p w ∧ IsDec p h ∧ IsDec p a
+  | .circleAnnulus, [ri, ro] => IsDec p ri ∧ IsDec p ro
+  | .ellipseAnnulus, [iw, ow, ih, oh, a] =>
+    IsDec p (iw / 2) ∧ IsDec p (ow / 2) ∧ IsDec p (ih / 2) ∧ IsDec p (oh / 2) ∧ IsDec p a
+  | .rectangleAnnulus, [iw, ow, ih, oh, a] => IsDec p iw ∧ IsDec p ow ∧ IsDec p ih ∧ IsDec p oh ∧ IsDec p a
+  | _, _ => True
+instance (p : ℕ) (s : Shape) (l : List ℚ) : Decidable (NumsNormal p s l) := by
+  unfold NumsNormal; split <;> infer_instance
+
+/-- the class invariants the constructors enforce (`PositiveScalar`, inner < outer). -/
+def SizesValid : Shape → List ℚ → Prop
+  | .circle, [r] => 0 < r
+  | .ellipse, [w, h, _] => 0 < w ∧ 0 < h
+  | .rectangle, [w, h, _] => 0 < w ∧ 0 < h
+  | .circleAnnulus, [ri, ro] => (0 < ri ∧ 0 < ro) ∧ ri < ro
+  | .ellipseAnnulus, [iw, ow, ih, oh, _] => (0 < iw ∧ 0 < ow ∧ 0 < ih ∧ 0 < oh) ∧ iw < ow ∧ ih < oh
+  | .rectangleAnnulus, [iw, ow, ih, oh, _] => (0 < iw ∧ 0 < ow ∧ 0 < ih ∧ 0 < oh) ∧ iw < ow ∧ ih < oh
+  | _, _ => True
+instance (s : Shape) (l : List ℚ) : Decidable (SizesValid s l) := by
+  unfold SizesValid; split <;> infer_instance
+
+/-- DS9 meta keys whose values are `0`/`1`. -/
+def binaryMeta : List Key :=
+  [.background, .delete, .edit, .fixed, .highlite, .include, .move, .rotate, .select, .source]
+
+def StrOK (textPlain : Str → Prop) : Option PyVal → Prop
+  | none => True
+  | some (.str s) => braceSafe s ∧ textPlain s
+  | some _ => False
+
+instance (tp : Str → Prop) [DecidablePred tp] (v : Option PyVal) : Decidable (StrOK tp v) := by
+  unfold StrOK; split <;> infer_instance
+
+def MetaNormal (textPlain : Str → Prop) [DecidablePred textPlain] (r : Region) : Prop :=
+  r.vis = plainVisual ∧
+  (∀ kv ∈ r.mta, kv.1 ∈ ds9MetaKeys) ∧
+  (∀ k ∈ binaryMeta, match AL.get r.mta k with
+    | none => True
+    | some v => v = .int 0 ∨ v = .int 1) ∧
+  (AL.get r.mta .include).isSome = true ∧
+  (match AL.get r.mta .tag with
+   | none => True
+   | some (.strs l) => l ≠ [] ∧ ∀ s ∈ l, braceSafe s
+   | some _ => False) ∧
+  StrOK textPlain (AL.get r.mta .text) ∧ StrOK textPlain r.text
+
+instance (tp : Str → Prop) [DecidablePred tp] (r : Region) : Decidable (MetaNormal tp r) := by
+  unfold MetaNormal
+  refine @instDecidableAnd _ _ inferInstance (@instDecidableAnd _ _ inferInstance
+    (@instDecidableAnd _ _ ?_ (@instDecidableAnd _ _ inferInstance (@instDecidableAnd _ _ ?_ inferInstance))))
+  · refine @List.decidableBAll _ _ ?_ _
+    intro k; simp only; split <;> infer_instance
+  · split <;> infer_instance
+
+def ReaderNormal (textPlain : Str → Prop) [DecidablePred textPlain] (p : ℕ) (r : Region) : Prop :=
+  WF r ∧ Expressible r ∧ r.shape ≠ .regularPolygon ∧
+  (∀ c ∈ r.coords, CoordNormal p (decide (r.frame = .image)) c) ∧
+  NumsNormal p r.shape r.nums ∧ SizesValid r.shape r.nums ∧ MetaNormal textPlain r
+
+instance (tp : Str → Prop) [DecidablePred tp] (p : ℕ) (r : Region) : Decidable (ReaderNormal tp p r) := by
+  unfold ReaderNormal; infer_instance
+
+/-- equality of regions as `Region.__eq__` sees it: dictionaries are compared as mappings. -/
+def RegionEqv (r r' : Region) : Prop :=
+  r'.shape = r.shape ∧ r'.frame = r.frame ∧ r'.coords = r.coords ∧ r'.nums = r.nums ∧ r'.text = r.text ∧
+  (∀ k, AL.get r'.mta k = AL.get r.mta k) ∧ (∀ k, AL.get r'.vis k = AL.get r.vis k)
 
 end RegionsVerif.Spec.C09
